@@ -31,7 +31,8 @@ MIN = {'quick': {'distinct': 3000,
                            'transform.substitute_terminals': 1000,
                            'transform.filter_by_length': 300,
                            'trees.delete_terminal': 2000},
-                 'strata': {'insert: index len+1': 50, 'insert: index 0': 50,
+                 'strata': {'second edit on the same tree': 500,
+                            'insert: index len+1': 50, 'insert: index 0': 50,
                             'insert: negative index': 50,
                             'substitute: out of range, quiet': 50,
                             'traces: keep+keepcoindex': 50,
@@ -430,7 +431,14 @@ def run_case(ctx, case, rng):
                                   key=lambda t: t.data['num'])
                     R.trees.delete_terminal(live, toks[case['which'] - 1])
                 else:
-                    getattr(R.transform, op)(live, **params)
+                    res = getattr(R.transform, op)(live, **params)
+                    if case.get('then') and res is not None and \
+                            op != 'punctuation_delete':
+                        # a second edit on the same tree objects
+                        Cur.expect_lines = None
+                        getattr(R.transform, case['then'])(
+                            res, **case.get('then_params', {}))
+                        ctx.stratum('second edit on the same tree')
     except BaseException as e:
         if isinstance(e, (KeyboardInterrupt, SystemExit)):
             raise
@@ -559,6 +567,12 @@ def shard(ctx):
             case['spec'] = base_tree(rng, gen.Pools())
             n = len(gen.tokens_of(case['spec']['root']))
             case['which'] = rng.randint(1, n)
+        if rng.random() < 0.3:
+            case['then'] = rng.choice(['punctuation_delete',
+                                       'filter_by_length'])
+            case['then_params'] = {'quiet': True} \
+                if case['then'] == 'punctuation_delete' else \
+                {'filteroperator': 'gt', 'filtervalue': rng.randint(0, 9)}
         run_case(ctx, case, rng)
         if i < 4:
             ctx.sample({'op': op, 'params': case['params'],
